@@ -243,18 +243,7 @@ def key_of(rej):
 
 
 def report(ctx, val):
-    best, counts = {}, {}
-    for r in val.rejects:
-        k = key_of(r)
-        counts[k] = counts.get(k, 0) + 1
-        if k not in best or len(r["trace"]["raw"]) < len(best[k]["trace"]["raw"]):
-            best[k] = r
-    for k in sorted(best):
-        r = best[k]
-        t = r["trace"]
-        for _ in range(counts[k]):
-            ctx.violation(k, "%s after pass %s (snapshot %d) on %r" % (r["clause"], r["pass"], r["l"], t["raw"][:300]),
-                          {"raw": t["raw"], "lang": t["lang"], "lossless": t["lossless"], "clause": r["clause"], "pass": r["pass"], "snapshot": r["l"]})
+    shared.report(ctx, val, key_of)
 
 
 def run(ctx):
